@@ -10,7 +10,7 @@ Definitions only consumed by `Props/C20b.lean`:
 
 * `absEnd`   : (session state, communication-handler state, enabled flag) ↦ `Model.Pair.End`;
 * `Coupled`  : the consistency invariant under which the two validated endpoint models describe ONE endpoint;
-* `prodStep` : the product — an input of the session layer is handled by `Model.Hsms.step Defects.code`; every output of that step
+* `prodStep` : the product — an input of the session layer is handled by `Model.Hsms.step Defects.none` (the code as it is); every output of that step
   that the GEM handler is hooked to becomes an input of `Model.GemComm.step`, in order
   (`connected` event ↦ `linkConnected`, `communicating` event ↦ `linkSelected`, `disconnected` event ↦ `linkLost`, `message_received` of a data message ↦ `rx s f w sys commack`);
 * `absFrames`: frames written by the product ↦ `Model.Pair.Msg`.
@@ -18,7 +18,7 @@ Definitions only consumed by `Props/C20b.lean`:
 ## What the abstraction forgets
 
 system bytes and both system counters (`St.ctr`, `State.nextSys`, `State.mySys` — the product does not even tie the two counters to each
-other), the open-request list `St.opn` (T6, Linktest, the select thread's pending Select.req), `St.disconnecting` (false in every coupled
+other), the open-request list `St.opn` (T6, Linktest, the select thread's pending Select.req) and the linktest timers (`St.ltStored`, `St.ltOrphans`), `St.disconnecting` (false in every coupled
 state: the local close is one product step), the two timer flags (determined by the communication state in a coupled state), the queue
 `State.queued` (empty while a connection exists), every frame that is not Select.req / Select.rsp / S1F13 / S1F14 (Reject.req, Separate.req, Linktest, S9F5), events,
 callbacks, swallowed exceptions.
@@ -110,7 +110,7 @@ def runG (cfg : Cfg) : State → List Input → State × List Output
 
 /-- one input of the session layer through the product: new (session, handler) state, and what each layer put out -/
 def prodStep (cfg : Cfg) (h : St) (g : State) (i : In) (commack : Option Nat) : (St × State) × (List Out × List Output) :=
-  let r := Model.Hsms.step Defects.code h i
+  let r := Model.Hsms.step Defects.none h i
   let q := runG cfg g (r.2.filterMap (toGem i commack))
   ((r.1, q.1), (r.2, q.2))
 
@@ -194,10 +194,10 @@ theorem putIfOpen_frames (s : St) (sys : Int) : (Model.Hsms.putIfOpen s sys).2.f
   unfold Model.Hsms.putIfOpen; split <;> rfl
 
 theorem putIfOpen_conn (s : St) (sys : Int) : (Model.Hsms.putIfOpen s sys).1.conn = s.conn := by
-  unfold Model.Hsms.putIfOpen; split <;> rfl
+  unfold Model.Hsms.putIfOpen; split <;> simp
 theorem putIfOpen_disc (s : St) (sys : Int) : (Model.Hsms.putIfOpen s sys).1.disconnecting = s.disconnecting := by
-  unfold Model.Hsms.putIfOpen; split <;> rfl
+  unfold Model.Hsms.putIfOpen; split <;> simp
 theorem putIfOpen_active (s : St) (sys : Int) : (Model.Hsms.putIfOpen s sys).1.active = s.active := by
-  unfold Model.Hsms.putIfOpen; split <;> rfl
+  unfold Model.Hsms.putIfOpen; split <;> simp
 
 end SecsModel.Proofs.PairBridge
